@@ -268,7 +268,7 @@ func init() {
 					if isNilConst(b.X) {
 						other = b.Y
 					}
-					if f := loadedField(other); f != nil && f.Name() == "templateFS" {
+					if f := loadedField(other); f != nil && fieldIs(f, "templateFS") {
 						okField = true
 					}
 				}
@@ -456,7 +456,7 @@ func init() {
 			alignOK := false
 			for _, site := range callsIn(cc) {
 				if calleeName(site.Common()) == "markdown.alignString" {
-					if f := loadedField(site.Common().Args[0]); f != nil && f.Name() == "Alignment" {
+					if f := loadedField(site.Common().Args[0]); f != nil && fieldIs(f, "Alignment") {
 						alignOK = true
 					}
 				}
@@ -635,11 +635,11 @@ func copiesAttrs(p *Prog, fn *ssa.Function, seen map[*ssa.Function]bool) bool {
 			return
 		}
 		fv := fieldVar(st.Addr)
-		if fv == nil || fv.Name() != "Attr" {
+		if fv == nil || !fieldIs(fv, "Attr") {
 			return
 		}
 		// value: load of src.Attr (shared) or append(nil/fresh, src.Attr...) (copy)
-		if f := loadedField(st.Val); f != nil && f.Name() == "Attr" {
+		if f := loadedField(st.Val); f != nil && fieldIs(f, "Attr") {
 			if ld, ok := st.Val.(*ssa.UnOp); ok {
 				if fa, ok := ld.X.(*ssa.FieldAddr); ok && fa.X == src {
 					shares = true
